@@ -204,34 +204,85 @@ Proof.
   unfold spec_total_weight. apply total_weight_closed.
 Qed.
 
-(** reading a counter after [bump] / after a period end *)
-Lemma mc_get_bump id i k mc : mc_get id (bump i k mc) = mc_get id mc + (if Nat.eqb i id then k else 0).
+(** the MissCounters list is kept strictly sorted by validator id *)
+Fixpoint mc_sorted (l : list (nat * Z)) : Prop :=
+  match l with
+  | [] => True
+  | e :: r => (forall x, In x r -> (fst e < fst x)%nat) /\ mc_sorted r
+  end.
+
+Lemma mc_get_above id l : (forall x, In x l -> (id < fst x)%nat) -> mc_get id l = 0.
 Proof.
-  induction mc as [|[j c] mc IH]; simpl.
+  induction l as [|[j c] l IH]; simpl; intro H; [reflexivity|].
+  assert (E : Nat.eqb j id = false) by (apply Nat.eqb_neq; specialize (H (j, c) (or_introl eq_refl)); simpl in H; lia).
+  rewrite E. apply IH. intros x Hx. apply H. right. exact Hx.
+Qed.
+
+Lemma bump_in x i k l : In x (bump i k l) -> fst x = i \/ In (fst x) (map fst l).
+Proof.
+  induction l as [|[j c] l IH]; simpl.
+  - intros [<-|[]]. left. reflexivity.
+  - destruct (Nat.ltb i j).
+    + intros [<-|[<-|H]]; [left; reflexivity | right; left; reflexivity | right; right; apply in_map; exact H].
+    + destruct (Nat.eqb i j) eqn:E.
+      * intros [<-|H]; [right; left; reflexivity | right; right; apply in_map; exact H].
+      * intros [<-|H]; [right; left; reflexivity|]. destruct (IH H) as [H1|H1]; [left; exact H1 | right; right; exact H1].
+Qed.
+
+Lemma bump_sorted i k l : mc_sorted l -> mc_sorted (bump i k l).
+Proof.
+  induction l as [|[j c] l IH]; simpl; intro H.
+  - split; [intros ? []|exact I].
+  - destruct H as [H1 H2]. destruct (Nat.ltb i j) eqn:E1.
+    + apply Nat.ltb_lt in E1. simpl. split.
+      * intros x [<-|Hx]; [simpl; exact E1|]. specialize (H1 x Hx). simpl in H1. lia.
+      * split; assumption.
+    + apply Nat.ltb_ge in E1. destruct (Nat.eqb i j) eqn:E2.
+      * simpl. split; assumption.
+      * apply Nat.eqb_neq in E2. simpl. split; [|apply IH; exact H2].
+        intros x Hx. apply bump_in in Hx as [Hx|Hx]; [simpl; lia|].
+        apply in_map_iff in Hx as [y [Ey Hy]]. specialize (H1 y Hy). simpl in H1. lia.
+Qed.
+
+(** reading a counter after [bump] / after a period end *)
+Lemma mc_get_bump id i k mc : mc_sorted mc -> mc_get id (bump i k mc) = mc_get id mc + (if Nat.eqb i id then k else 0).
+Proof.
+  induction mc as [|[j c] mc IH]; simpl; intro Hs.
   - destruct (Nat.eqb i id); lia.
-  - destruct (Nat.ltb i j) eqn:E1; simpl.
+  - destruct Hs as [H1 H2]. destruct (Nat.ltb i j) eqn:E1; simpl.
     + destruct (Nat.eqb i id) eqn:E2; [|lia]. apply Nat.eqb_eq in E2. subst i. apply Nat.ltb_lt in E1.
-      assert (E3 : Nat.eqb j id = false) by (apply Nat.eqb_neq; lia). rewrite E3. lia.
+      assert (E3 : Nat.eqb j id = false) by (apply Nat.eqb_neq; lia). rewrite E3.
+      rewrite mc_get_above; [lia|]. intros x Hx. specialize (H1 x Hx). simpl in H1. lia.
     + destruct (Nat.eqb i j) eqn:E2; simpl.
       * apply Nat.eqb_eq in E2. subst j. destruct (Nat.eqb i id); lia.
       * destruct (Nat.eqb j id) eqn:E3.
         -- apply Nat.eqb_eq in E3. subst j. rewrite E2. lia.
-        -- exact IH.
+        -- apply IH. exact H2.
+Qed.
+
+Lemma exp_miss_f_sorted (f : nat -> Z) : forall ids mc, mc_sorted mc -> mc_sorted (exp_miss_f f ids mc).
+Proof.
+  unfold exp_miss_f. induction ids as [|i ids IH]; simpl; intros mc H; [exact H|].
+  apply IH. destruct (0 <? f i); [apply bump_sorted; exact H | exact H].
 Qed.
 
 Lemma mc_get_exp_miss_f (f : nat -> Z) id : forall ids mc,
-  NoDup ids ->
+  NoDup ids -> mc_sorted mc ->
   mc_get id (exp_miss_f f ids mc) = mc_get id mc + (if memb id ids then Z.max 0 (f id) else 0).
 Proof.
-  unfold exp_miss_f. induction ids as [|i ids IH]; simpl; intros mc Hnd; [lia|].
-  inversion Hnd as [|? ? Hn Hd]; subst. rewrite IH by exact Hd.
+  induction ids as [|i ids IH]; intros mc Hnd Hs; [unfold exp_miss_f; simpl; lia|].
+  inversion Hnd as [|? ? Hn Hd]; subst.
+  change (exp_miss_f f (i :: ids) mc) with (exp_miss_f f ids (if 0 <? f i then bump i (f i) mc else mc)).
+  assert (Hs' : mc_sorted (if 0 <? f i then bump i (f i) mc else mc)) by (destruct (0 <? f i); [apply bump_sorted; exact Hs | exact Hs]).
+  rewrite (IH _ Hd Hs').
+  unfold memb. simpl. fold (memb id ids).
   destruct (Nat.eqb id i) eqn:E; simpl.
   - apply Nat.eqb_eq in E. subst i.
     assert (Em : memb id ids = false) by (apply memb_false; exact Hn). rewrite Em.
     destruct (0 <? f id) eqn:Ef.
-    + rewrite mc_get_bump, Nat.eqb_refl. apply Z.ltb_lt in Ef. lia.
+    + rewrite mc_get_bump by exact Hs. rewrite Nat.eqb_refl. apply Z.ltb_lt in Ef. lia.
     + apply Z.ltb_ge in Ef. lia.
-  - destruct (0 <? f i); [|reflexivity]. rewrite mc_get_bump.
+  - destruct (0 <? f i); [|reflexivity]. rewrite mc_get_bump by exact Hs.
     assert (E2 : Nat.eqb i id = false) by (rewrite Nat.eqb_sym; exact E). rewrite E2. lia.
 Qed.
 
@@ -241,10 +292,10 @@ Proof. unfold spec_miss. lia. Qed.
 (** a validator's counter grows at a period end by exactly the number of quorum pairs on which it
     submitted a positive out-of-band rate — and not at all if it is not eligible *)
 Theorem miss_counter_growth p st mc id :
-  ids_nodup st ->
+  ids_nodup st -> mc_sorted mc ->
   mc_get id (exp_miss p st mc) = mc_get id mc + (if memb id (eligible_ids st) then spec_miss p st id else 0).
 Proof.
-  intro H. unfold exp_miss. rewrite mc_get_exp_miss_f by (apply eligible_ids_nodup; exact H).
+  intros H Hs. unfold exp_miss. rewrite (mc_get_exp_miss_f _ id _ mc (eligible_ids_nodup st H) Hs).
   pose proof (spec_miss_nonneg p st id). destruct (memb id (eligible_ids st)); lia.
 Qed.
 
